@@ -219,7 +219,7 @@ func writeHeader(utf8 bool, w *textproto.MultipartWriter, header textproto.Heade
 	if utf8 {
 		partHeader.Add("Content-Type", "message/global-headers")
 	} else {
-		partHeader.Add("Content-Type", "message/rfc822-headers")
+		partHeader.Add("Content-Type", "text/rfc822-headers")
 	}
 	partHeader.Add("Content-Transfer-Encoding", "8bit")
 	headerWriter, err := w.CreatePart(partHeader)
